@@ -19,6 +19,7 @@ import (
 	"encoding/hex"
 	"fmt"
 	"io"
+	"log/slog"
 	"net"
 	"net/netip"
 	"os"
@@ -306,6 +307,9 @@ func (w *world) addPeer(n sx.Node) {
 	if err := w.s.AddPeer(context.Background(), &api.AddPeerRequest{Peer: oc.NewPeerFromConfigStruct(nc)}); err != nil {
 		w.out = append(w.out, "(addpeer-error "+strings.ReplaceAll(err.Error(), " ", "_")+")")
 		return
+	}
+	if ok, _ := hasOpt(n, 3, "notaw"); ok {
+		w.s.VerifSetTreatAsWithdraw(n.At(1).Atom, false)
 	}
 	w.peers[n.At(0).Atom] = &fakePeer{name: n.At(0).Atom, addr: v4(n.At(1).Atom), as: uint32(n.At(2).Uint()), id: v4(n.At(1).Atom)}
 }
@@ -694,7 +698,12 @@ func runScenario(t *testing.T, line string) (out string) {
 	sc := ns[0]
 	synctest.Test(t, func(t *testing.T) {
 		g := sc.At(1)
-		s := server.NewBgpServer()
+		var s *server.BgpServer
+		if os.Getenv("VERIF_SIM_LOG") != "" {
+			s = server.NewBgpServer(server.LoggerOption(slog.New(slog.NewTextHandler(os.Stderr, &slog.HandlerOptions{Level: slog.LevelDebug})), nil))
+		} else {
+			s = server.NewBgpServer()
+		}
 		go s.Serve()
 		w = &world{t0: time.Now(), start: time.Now().Unix(), t: t, s: s, peers: map[string]*fakePeer{}, global: g, local: v4("10.0.0.254"), peerConf: map[string]*oc.Neighbor{}}
 		global := &api.Global{Asn: uint32(g.At(1).Uint()), RouterId: g.At(2).Atom, ListenPort: -1}
